@@ -2,6 +2,9 @@
 package c03
 
 import (
+	"fmt"
+	"unsafe"
+
 	"github.com/tencent/goom/internal/bytecode"
 	"github.com/tencent/goom/internal/patch"
 )
@@ -16,7 +19,28 @@ func GetFuncSize(entry uintptr) (int, error) {
 }
 func UnpatchAll() { patch.UnpatchAll() }
 
-// Compose builds the whole trampoline in place (writes into the placeholder).
-func Compose(origin, trampoline uintptr, jumpLen int) (uintptr, error) {
-	return patch.VerifC03Compose(origin, trampoline, jumpLen)
+func composeReplacement() {}
+
+var composed int
+
+// Compose builds the whole trampoline in place (writes into the placeholder) the way an apply with
+// an origin placeholder does: through the package's exported entry point patch.PtrTrampoline
+// (target by address, placeholder given as a function value whose code pointer is `trampoline`).
+// The guard is never applied, so nothing is written to the target; a panic counts as a refusal.
+func Compose(origin, trampoline uintptr, jumpLen int) (p uintptr, err error) {
+	defer func() {
+		if r := recover(); r != nil {
+			err = fmt.Errorf("panic: %v", r)
+		}
+	}()
+	if composed++; composed%4096 == 0 {
+		patch.UnpatchAll() // only empties the registry: no guard is ever applied
+	}
+	fv := &struct{ code uintptr }{trampoline}
+	placeholder := *(*func())(unsafe.Pointer(&fv))
+	g, err := patch.PtrTrampoline(origin, composeReplacement, placeholder)
+	if err != nil {
+		return 0, err
+	}
+	return g.FixOriginFunc(), nil
 }
